@@ -14,12 +14,13 @@ TIE = {'approval.ProportionalApproval / SequentialProportionalApproval': 'corres
 RULE = ('corpus; approval profiles over 2..6 candidates (1..7 distinct ballots, weights 1..5) x n 1..|C| through PAV (fresh object per '
         'call and a shared object) and SPAV; score profiles over 2..5 candidates, grades 0..5, partial ballots, through ScoreVoting and '
         'MajorityJudgment with function in {mean,sum,median_low}, unscored_value in {None,0,min}, min_count in {0,2}, truncation in {0,1,1/10}, '
-        'tie_breaking in {default,plus}; a single-seat stream of complete ballots with grades 0..2 (level medians, close STAR run-offs); STAR through the model and (run-off of two) a reference; allocated score (selector; distributor with prev_gains / max_seats; Hare and Droop; 1..m seats; integer and fractional weights; few-grade profiles with level leaders) through Model/AllocScore.v - order of election and exception class compared exactly - and against an independent Python reference. Declarative '
+        'tie_breaking in {default,plus}; a single-seat stream of complete ballots with grades 0..2 (level medians, close STAR run-offs); n-seat boundary streams mj-seats-level (few grades / end-mutated copies of one grade column: equal medians at the cut, long common removal prefixes, multi-copy steps) and star-seats (tied finalist cuts, unseparated finalists, 3..5-member run-offs), both judged by independent references of the proved statements (removal-sequence order, plus counts, Schulze over the run-off supports); STAR through the model and (run-off of two) a reference; allocated score (selector; distributor with prev_gains / max_seats; Hare and Droop; 1..m seats; integer and fractional weights; few-grade profiles with level leaders) through Model/AllocScore.v - order of election and exception class compared exactly - and against an independent Python reference. Declarative '
         'clauses on implementation outputs: PAV committee = unique brute-force maximiser of the harmonic satisfaction (refusal iff not unique) '
         'and satisfies justified representation; SPAV round = unique argmax. non-trivial = more than two ballots; distinct by case hash')
 PARTIAL = ['allocated score: the clause is proved for every round without a tie and positive ballot weights; rounds with level leaders follow the code (all elected in set-iteration order, or one tie entry for several seats: C12_alloc_tie_*_refuted) and the ValueError of the subtraction loop is characterised exactly (crash_cond, C12_alloc_crash_refuted)',
-           'STAR: the run-off clause is proved for one seat with two untied finalists (C12_star_runoff); other run-off sizes are modelled and compared only',
-           'MJ default tie-break for more than one seat: only the median clause (C12_mj_highest_median) is proved; the multi-copy removal step = mj_ch single removals (C12_mj_multi_copy) assumes non-negative counts and numerically distinct grades per candidate']
+           'STAR: proved for the default configuration (run-off of n + 1, unscored below every scored candidate): table = supports, exact short class, complete one-seat table, Schulze over the table for n seats (C12_star_*); a configured unscored_value / other run-off sizes are judged by the Python reference only',
+           'MJ for n seats: the theorems (C12_mj_seats_*) are about answers; StatisticsError / VotingSystemError (reference order undefined at the cut) and the sufficiency of the fuel are compared, not proved',
+           'score voting: truncation / min_count keep the dictionaries well formed (C12_corrected_scores_ok) and the aggregate is ranked exactly; that exactly the c lowest and c highest scores are dropped is compared, not proved']
 TRUSTED = []
 _shared = {}
 
